@@ -377,7 +377,10 @@ func c16RouteRun(c c16RouteCase) (out c16RouteOut) {
 					return
 				}
 				if p.xerr == nil {
-					if got := c16TagSecret(p.peerTag); got != own {
+					if got := c16TagSecret(p.peerTag); got == "" {
+						out.key, out.msg = "routing:message-garbled", fmt.Sprintf("session %d (%s): the acceptor read %q", p.sess, s.Kind, p.peerTag)
+						return
+					} else if got != own {
 						out.key, out.msg = "routing:wrong-acceptor", fmt.Sprintf("session %d (%s): the acceptor waiting for secret %s was handed a connection whose dialer used secret %s (message %q)", p.sess, s.Kind, own, got, p.peerTag)
 						return
 					}
@@ -410,7 +413,10 @@ func c16RouteRun(c c16RouteCase) (out c16RouteOut) {
 					return
 				}
 				if p.xerr == nil {
-					if got := c16TagSecret(p.peerTag); got != own {
+					if got := c16TagSecret(p.peerTag); got == "" {
+						out.key, out.msg = "routing:message-garbled", fmt.Sprintf("session %d (%s): the dialer read %q", p.sess, s.Kind, p.peerTag)
+						return
+					} else if got != own {
 						out.key, out.msg = "routing:wrong-acceptor", fmt.Sprintf("session %d (%s): the dialer using secret %s was answered by an acceptor using secret %s (message %q)", p.sess, s.Kind, own, got, p.peerTag)
 						return
 					}
